@@ -147,12 +147,13 @@ pub fn run(part: &mut Part) {
         }
         "C01" => {
             let seeds_hash = probe_hash_seeds(&["a", "b", "f"], if q { 2 } else { 6 });
-            let file_end = cursor_seeds(&[3], &[0, 1, 6, 7, 8, 19, 34]);
+            let mut file_end = cursor_seeds(&[3], &[0, 1, 6, 7, 8, 19, 34]);
+            file_end.extend(all_dead_seeds());
             let profiles = if TINY {
                 vec![
                     prof("empty x A_roll", vec![seed_empty()], a_roll(), if q { 4 } else { 5 }),
                     prof("structural seeds x A_roll", structural_seeds(), a_roll(), if q { 3 } else { 4 }),
-                    prof("cursor near file end x A_roll", file_end, a_roll(), if q { 2 } else { 3 }),
+                    prof("cursor near file end / all-dead file x A_roll", file_end, a_roll(), if q { 3 } else { 4 }),
                 ]
             } else {
                 let mut s = vec![seed_empty()];
@@ -194,7 +195,8 @@ pub fn run(part: &mut Part) {
         }
         "C04" => {
             let seeds_hash = probe_hash_seeds(&["a", "b", "f"], if q { 2 } else { 6 });
-            let seeds = vec![seed_empty_old(), seed_gc_ready(), seed_two_files(), seed_three_files(), seed_interleaved(), seed_future(), seed_recreated()];
+            let mut seeds = vec![seed_empty_old(), seed_gc_ready(), seed_two_files(), seed_three_files(), seed_interleaved(), seed_future(), seed_recreated()];
+            seeds.extend(all_dead_seeds());
             let profiles = if TINY {
                 vec![
                     prof("GC seeds x A_roll", seeds, a_roll(), if q { 3 } else { 4 }),
@@ -232,6 +234,7 @@ pub fn run(part: &mut Part) {
             let mut seeds = vec![seed_two_files(), seed_three_files(), seed_interleaved(), seed_empty_old(), seed_gc_ready()];
             seeds.extend(cursor_seeds(&[3], &[0, 1, 6, 7, 8, 19, 34]));
             seeds.extend(gc_spill_seeds());
+            seeds.push(seed_many_files(7));
             let profiles = if TINY {
                 vec![
                     prof("multi-file seeds x A_roll", seeds, a_roll(), if q { 3 } else { 4 }),
@@ -246,7 +249,19 @@ pub fn run(part: &mut Part) {
                 Monitors { property: "C06", c06: true, policy: Some(PolicyCfg::DelayAltFlush), ..Default::default() },
             ];
             run_seq(part, profiles, mons);
-            part.rule = "every op sequence of the stated depth after multi-file seeds; after every truncate / delete_queue / open the real directory listing is compared with the harness's own attribution (file that received the first byte each retained record's append call wrote, from frame events) ; distinct_nontrivial = distinct (file list, oldest attributed file, file at call begin, call kind)".into();
+            // open after a crash: every crash point of the last op, then the listing after recovery
+            let mut cseeds = vec![seed_two_files(), seed_three_files(), seed_gc_ready(), seed_empty_old()];
+            cseeds.extend(cursor_seeds(&[3], &[0, 8, 19, 34]));
+            cseeds.extend(gc_spill_seeds().into_iter().step_by(3));
+            let cseeds = thin(cseeds, 3, q);
+            let mut calpha = a_write();
+            calpha.push(Op::app(QA, Pos::Auto, Sz::XL));
+            let cprofiles = vec![prof("multi-file seeds x (A_write + XL), crash + recovery", cseeds, calpha, if TINY { if q { 2 } else { 3 } } else { 1 })];
+            let ccfgs: Vec<CrashCfg> = [PolicyCfg::Default, PolicyCfg::DoNothing].iter().map(|pol| CrashCfg {
+                property: "C06", oracle: Oracle::C06, policy: *pol, hash_seed: 0, power_loss: false, second_crash: false, cont_struct: 0, cont_other: 0, initial_open: false,
+            }).collect();
+            run_crash(part, cprofiles, ccfgs);
+            part.rule = "every op sequence of the stated depth after multi-file seeds; after every truncate / delete_queue / open the real directory listing is compared with the harness's own attribution (file that received the first byte each retained record's append call wrote, from frame events) ; distinct_nontrivial = distinct (file list, oldest attributed file, file at call begin, call kind). Open after a crash: every crash point of the last op of every history of the crash profile (flush-per-op and DoNothing policies), recovery, then the same listing check against the records that were recovered".into();
             part.require_outcomes(&["c06_checks", "c06_calls_deleting_files"]);
         }
         "C13" => {
